@@ -135,7 +135,7 @@ def run_impl(lines, timeout_ms=5000, jobs=None):
     env['GOMAXPROCS'] = '2'
     return _parallel(['/bin/sh', '-c', f'ulimit -v 4000000; exec {IMPL}'], lines, env, jobs)
 
-def run_model(lines, fuel=200000, jobs=None):
+def run_model(lines, fuel=30000, jobs=None):
     return _parallel(['/bin/sh', '-c', f'ulimit -s unlimited 2>/dev/null || ulimit -s 1000000; exec {MODEL} {fuel}'], lines, None, jobs)
 
 def fields(resp):
